@@ -92,4 +92,94 @@ example :
                settable := fun _ => false, fails := fun n => n == 0 } 0 4).1
       = [[.write 5 false], [.write 6 true]] := by decide
 
+/-! ### Sequences of calls (the property quantifies over fault sequences across calls) -/
+
+/-- The attempt counter only moves forward. -/
+theorem emit_counter (c : CallCtx) (start : Nat) (sev : Int) : start ≤ (emitRecord c start sev).2.2 := by
+  simp [emitRecord, deliver]
+
+theorem warn_counter (c : CallCtx) (start : Nat) : start ≤ (warnRecord c start).2 := by
+  unfold warnRecord
+  split
+  · exact emit_counter c start Lv.warn
+  · exact Nat.le_refl _
+
+theorem logCall_proj (c : CallCtx) (start : Nat) (sev : Int) :
+    logCall c start sev =
+      if Gen.enabled c.g c.level sev then
+        if Gen.warnOnFailure (emitRecord c start sev).2.1 sev then
+          ((emitRecord c start sev).1 :: (warnRecord c (emitRecord c start sev).2.2).1,
+           (warnRecord c (emitRecord c start sev).2.2).2)
+        else ([(emitRecord c start sev).1], (emitRecord c start sev).2.2)
+      else ([], start) := by
+  unfold logCall
+  rcases he : emitRecord c start sev with ⟨ev, failed, next⟩
+  rcases hw : warnRecord c next with ⟨evs, next'⟩
+  simp [hw]
+
+theorem counter_monotone (c : CallCtx) (start : Nat) (sev : Int) : start ≤ (logCall c start sev).2 := by
+  rw [logCall_proj]
+  split
+  · split
+    · exact Nat.le_trans (emit_counter c start sev) (warn_counter c _)
+    · exact emit_counter c start sev
+  · exact Nat.le_refl _
+
+/-- (9) Over any sequence of calls and any failure schedule: one entry per call, and every call
+    produces at most two records (its own and at most one diagnostic) — the reaction is bounded
+    per call for the whole history, so a history of `n` calls never produces more than `2 n`. -/
+theorem sequence_bounded (c : CallCtx) (start : Nat) (sevs : List Int) :
+    (runCalls c start sevs).1.length = sevs.length ∧ ∀ recs ∈ (runCalls c start sevs).1, recs.length ≤ 2 := by
+  induction sevs generalizing start with
+  | nil => simp [runCalls]
+  | cons sev rest ih =>
+    have h := ih (logCall c start sev).2
+    refine ⟨by simp [runCalls, h.1], ?_⟩
+    intro recs hr
+    simp only [runCalls, List.mem_cons] at hr
+    rcases hr with rfl | hr
+    · exact at_most_one_diagnostic c start sev
+    · exact h.2 recs hr
+
+/-- One call after the failures are over behaves like the same call on a logger whose
+    destinations never failed. -/
+theorem call_after_recovery (c : CallCtx) (start start' : Nat) (sev : Int)
+    (h : ∀ n, start ≤ n → c.fails n = false) :
+    (logCall c start sev).1 = (logCall { c with fails := fun _ => false } start' sev).1 := by
+  rw [no_sticky_state c start sev, no_sticky_state { c with fails := fun _ => false } start' sev]
+  have : (fun i => c.fails (start + i)) = fun _ => false := by
+    funext i; exact h _ (Nat.le_add_right _ _)
+  simp [this]
+
+/-- (10) Recovery, for whole histories: once the schedule holds no further failure (every
+    destination works again from attempt `start` on), every later call — whatever happened
+    before, however many failures and diagnostics — produces exactly what a logger whose
+    destinations never failed produces: every selected destination is written successfully and
+    no diagnostic appears. -/
+theorem recovery (c : CallCtx) (start start' : Nat) (sevs : List Int)
+    (h : ∀ n, start ≤ n → c.fails n = false) :
+    (runCalls c start sevs).1 = (runCalls { c with fails := fun _ => false } start' sevs).1 := by
+  induction sevs generalizing start start' with
+  | nil => simp [runCalls]
+  | cons sev rest ih =>
+    simp only [runCalls]
+    rw [call_after_recovery c start start' sev h]
+    congr 1
+    exact ih _ _ (fun n hn => h n (Nat.le_trans (counter_monotone c start sev) hn))
+
+/-- (11) A history splits at any point: the calls after the first `k` behave as a run that
+    starts where the first `k` left the schedule — no other state is carried across calls. -/
+theorem history_splits (c : CallCtx) (start : Nat) (xs ys : List Int) :
+    (runCalls c start (xs ++ ys)).1 = (runCalls c start xs).1 ++ (runCalls c (runCalls c start xs).2 ys).1 := by
+  induction xs generalizing start with
+  | nil => simp [runCalls]
+  | cons x xs ih => simp [runCalls, ih]
+
+-- non-vacuity: the only destination fails on the first two attempts, then works: the first Info
+-- call yields the record and a (failing) warning, the second call is delivered normally.
+example :
+    (runCalls { g := { errorDevice := [(3, true)] }, level := 4, cfg := some { normal := [5], error := [5], leveled := [] },
+                settable := fun _ => false, fails := fun n => n < 2 } 0 [4, 4]).1
+      = [[[.write 5 false], [.write 5 false]], [[.write 5 true]]] := by decide
+
 end Logg.Props.C13
